@@ -924,6 +924,10 @@ class SymbolTable():
                              f"found '{symbol1.name}' for both.")
 
         tmp_symbol = symbol1.copy()
+        # Try the exchange on copies first so that an incompatibility between
+        # the two symbols is reported before either of them is modified.
+        symbol1.copy().copy_properties(symbol2)
+        symbol2.copy().copy_properties(tmp_symbol)
         symbol1.copy_properties(symbol2)
         symbol2.copy_properties(tmp_symbol)
 
